@@ -287,6 +287,35 @@ func c02MutateSource(p *prepared, f *c02Fault) (string, bool) {
 	return fmt.Sprintf("%s:%d->%d", n.Rel, n.Size, newLen), os.Truncate(path, newLen) == nil
 }
 
+// c02DecoyCwd creates a directory holding, under every file path of the manifest, a file of
+// the same length with other content, and makes it the working directory; the returned
+// function restores the previous one.
+func c02DecoyCwd(p *prepared, cwd string) (func(), error) {
+	prev, err := os.Getwd()
+	if err != nil {
+		return nil, err
+	}
+	for i, it := range p.m.Items {
+		if it.IsDir {
+			continue
+		}
+		path := filepath.Join(cwd, filepath.FromSlash(it.RelPath))
+		if err := os.MkdirAll(filepath.Dir(path), 0755); err != nil {
+			return nil, err
+		}
+		if err := os.WriteFile(path, verifkit.Content(0xDEC0DEC0+uint64(i), int(it.Size)), 0644); err != nil {
+			return nil, err
+		}
+	}
+	if err := os.MkdirAll(cwd, 0755); err != nil {
+		return nil, err
+	}
+	if err := os.Chdir(cwd); err != nil {
+		return nil, err
+	}
+	return func() { os.Chdir(prev) }, nil
+}
+
 // c02Obstruct places an obstacle in the output directory; returns a description.
 func c02Obstruct(p *prepared, f *c02Fault) (string, bool) {
 	pre := p.out
@@ -442,6 +471,15 @@ func c02Case(x xcase, f c02Fault, plan []perturb) (sig, detail, cls string) {
 		return "", "", ""
 	}
 	applied := true
+	if strings.HasPrefix(f.Kind, "src-") && x.Mode == "paths" && !x.Legacy {
+		// the production sender runs with root path "." and a resolver: whatever lies below
+		// its working directory under the manifest's relative names must never be read in
+		// place of a selected file. Offer such look-alikes (same names and lengths, other
+		// bytes) in a private working directory for the time of the run.
+		if back, err := c02DecoyCwd(p, filepath.Join(dir, "cwd")); err == nil {
+			defer back()
+		}
+	}
 	switch {
 	case strings.HasPrefix(f.Kind, "src-") && !f.MidRun:
 		_, applied = c02MutateSource(p, &f)
